@@ -163,7 +163,9 @@ def axioms_ok(text):
 def static_obligations(ctx, extra_targets=None):
     """Build the property's theorem file (and everything it needs); re-check its assumptions.
     Records one obligation per theorem. Returns True when all are discharged."""
-    targets = ["Properties/%s.vo" % ctx.id, "Corr/Check_%s.vo" % ctx.id] + (extra_targets or [])
+    import glob
+    more = [os.path.relpath(f, COQ) + "o" for f in glob.glob(os.path.join(COQ, "Corr", "Check_%s*.v" % ctx.id))]
+    targets = sorted(set(["Properties/%s.vo" % ctx.id, "Corr/Check_%s.vo" % ctx.id] + more + (extra_targets or [])))
     targets = [t for t in targets if os.path.exists(os.path.join(COQ, t[:-1]))]
     ok, out = coq_make(targets)
     open(ctx.wpath("make.log"), "w").write(out)
